@@ -279,10 +279,51 @@ class Writer(object):
             return Poly.atom('len(%s)' % norm(c.args[0]))
         return None
 
+    def _list_count_at(self, e, n):
+        """element count of a list expression with every length atom = n, Python semantics (a negative repetition count gives the
+        empty list, a slice takes what is there); None when not evaluable"""
+        def val(x):
+            v = self.ev(x)
+            if not isinstance(v, Poly):
+                try:
+                    v = to_poly(x, self._polyenv())
+                except Exception:
+                    return None
+            tot = 0
+            for mono, c in v.t.items():
+                tot += c * (n ** sum(pw for a_, pw in mono))
+            return tot
+        if isinstance(e, ast.List):
+            return len(e.elts)
+        if isinstance(e, ast.BinOp) and isinstance(e.op, ast.Add):
+            a, b = self._list_count_at(e.left, n), self._list_count_at(e.right, n)
+            return None if a is None or b is None else a + b
+        if isinstance(e, ast.BinOp) and isinstance(e.op, ast.Mult):
+            a, k = self._list_count_at(e.left, n), val(e.right)
+            return None if a is None or k is None else a * max(0, k)
+        if isinstance(e, ast.Subscript) and isinstance(e.slice, ast.Slice) and e.slice.upper is not None:
+            a, k = self._list_count_at(e.value, n), val(e.slice.upper)
+            return None if a is None or k is None else min(a, max(0, k))
+        return None
+
     def _list_count(self, e):
         """number of elements of a list expression built with + and * from list literals"""
         if isinstance(e, ast.List):
             return Poly.const(len(e.elts))
+        if isinstance(e, ast.Subscript) and isinstance(e.slice, ast.Slice) and e.slice.lower is None and e.slice.step is None and e.slice.upper is not None:
+            # <list>[:K] has K elements where the list is at least K long: checked with Python semantics for lengths 1..6
+            k = self.ev(e.slice.upper)
+            if not isinstance(k, Poly):
+                try:
+                    k = to_poly(e.slice.upper, self._polyenv())
+                except Exception:
+                    return None
+            for n_ in range(1, 7):
+                a_ = self._list_count_at(e.value, n_)
+                kv = sum(c * (n_ ** sum(pw for x_, pw in mono)) for mono, c in k.t.items())
+                if a_ is None or a_ < kv or kv < 0:
+                    return None
+            return k
         if isinstance(e, ast.BinOp) and isinstance(e.op, ast.Add):
             a, b = self._list_count(e.left), self._list_count(e.right)
             return None if a is None or b is None else a + b
@@ -296,6 +337,11 @@ class Writer(object):
                     v = to_poly(e.right, self._polyenv())
                 except Exception:
                     return None
+            # list repetition clamps a negative count to the empty list, so the product is the element count only where the count
+            # cannot be negative: remembered as a side condition for the rule (dimension lengths are >= 1)
+            if not hasattr(self, 'repeat_counts'):
+                self.repeat_counts = []
+            self.repeat_counts.append((e, v))
             return a * v
         return None
 
@@ -367,7 +413,9 @@ class Writer(object):
             def listish(e):
                 return isinstance(e, ast.List) or (isinstance(e, ast.Name) and e.id in self.listdefs) or \
                     (isinstance(e, ast.BinOp) and isinstance(e.op, ast.Add) and listish(e.left) and listish(e.right)) or \
-                    (isinstance(e, ast.BinOp) and isinstance(e.op, ast.Mult) and (listish(e.left) or listish(e.right)))
+                    (isinstance(e, ast.BinOp) and isinstance(e.op, ast.Mult) and (listish(e.left) or listish(e.right))) or \
+                    (isinstance(e, ast.Subscript) and isinstance(e.slice, ast.Slice) and e.slice.lower is None and e.slice.step is None
+                     and e.slice.upper is not None and listish(e.value))
             if listish(lv):
                 from . import paths as _paths
                 self.listdefs[t.id] = _paths.subst(lv, dict(self.listdefs))
